@@ -4,7 +4,6 @@ from .ops_c08 import OPS
 
 PROP, BIN, RUNMOD, RUNFN = "C08", "c08", "RunC08", "run_C08"
 MODES = [True, False]
-LEVEL = "other"   # until the Model = Spec theorems of this property are merged (placeholder theorem only)
 
 
 def iroot(x, k):
